@@ -53,8 +53,8 @@ Fixpoint ok_restore_go (es : list ev) (os : list obs) (prev : obs) (stk : list o
   end.
 Definition ok_restore (es : list ev) (os : list obs) : bool := ok_restore_go es os obs0 [].
 
-(* is the history inside the known defect class?  (-pg shape: an entry is rejected after it changed
-   the filter state) - decided by the model *)
+(* does a -pg entry that is not hooked leave a changed filter state behind?  (the defect pg-reject-leak of the code
+   as found; repaired by mcount_entry_filter_undo, so this is false for every history now - kept as a checker) *)
 Fixpoint leaky_go (c : cfg) (es : list ev) (d : dstate) : bool :=
   match es with
   | [] => false
@@ -63,11 +63,8 @@ Fixpoint leaky_go (c : cfg) (es : list ev) (d : dstate) : bool :=
       let here := match e with
                   | Enter a t =>
                       match shp c with
-                      | PG => let '(s1, v, _, _) := entry_check c s a in
-                              match v with
-                              | V_IN => false
-                              | _ => negb (fpart_eqb (fpart (obs_of s1)) (fpart (obs_of s)))
-                              end
+                      | PG => if hooked c s a then false
+                              else negb (fpart_eqb (fpart (obs_of (do_enter c s a t))) (fpart (obs_of s)))
                       | CYG => false
                       end
                   | _ => false
@@ -75,6 +72,27 @@ Fixpoint leaky_go (c : cfg) (es : list ev) (d : dstate) : bool :=
       here || leaky_go c r (dstep c d e)
   end.
 Definition leaky (c : cfg) (es : list ev) : bool := leaky_go c es (init, []).
+
+(* the class of the remaining finding pg-rejected-trigger-scope: a -pg entry is rejected although its trigger would
+   have changed the filter state (under cygprof the NORECORD frame carries that change to the callees, under -pg
+   it is undone): only here may the two instrumentation methods record different streams *)
+Fixpoint rejected_trigger_go (c : cfg) (es : list ev) (d : dstate) : bool :=
+  match es with
+  | [] => false
+  | e :: r =>
+      let '(s, hk) := d in
+      let here := match e with
+                  | Enter a t =>
+                      let '(s1, v, _, _) := entry_check c s a in
+                      match v with
+                      | V_OUT => negb (fpart_eqb (fpart (obs_of s1)) (fpart (obs_of s)))
+                      | _ => false
+                      end
+                  | _ => false
+                  end in
+      here || rejected_trigger_go c r (dstep c d e)
+  end.
+Definition rejected_trigger (c : cfg) (es : list ev) : bool := rejected_trigger_go c es (init, []).
 
 (* the observed stream is properly nested: depths follow the open recorded calls, EXIT matches ENTRY *)
 Fixpoint scan5 (d : N) (stk : list N) (l : list seen5) : bool :=
